@@ -618,6 +618,7 @@ def _confirm(body, params, env, path, cl, model, rel_tol, timeout_ms):
         # realised with the state the real constructors produce means the invariant is too weak --
         # it is reported as inconclusive (exit 2), never as a violation
         out['abstract_only'] = True
+    alt = None
     for how, v in cands:
         st, detail = replay_once(body, v, params, cl.name, rel_tol)
         tried.append((how, st))
@@ -627,6 +628,16 @@ def _confirm(body, params, env, path, cl, model, rel_tol, timeout_ms):
             out.update(status='reproduced', how=how, detail=detail, values=v,
                        inputs={k: float(x) for k, x in list(v.items())[:40]})
             return out
+        if st == 'missing' and detail.get('failed_seen') and not out.get('abstract_only') and alt is None:
+            alt = (how, v, detail)
+    if alt is not None:
+        # the real code does not reach the claim at the solver's inputs (for instance: an exception in exact arithmetic is a
+        # NaN in floating point) but other claims of the same instance fail there: the counterexample is real, it shows differently
+        how, v, detail = alt
+        out.update(status='reproduced', how=how + ' (claim not reached in the float run; failing there: %s)' % ', '.join(list(detail['failed_seen'])[:3]),
+                   detail={'failed_on_real_code': detail['failed_seen'], 'exc': detail.get('exc')}, values=v,
+                   inputs={k: float(x) for k, x in list(v.items())[:40]})
+        return out
     out.update(status='not_reproduced', why=str(tried) + (' (counterexample exists only for an abstract pre-state; '
                'not realisable with the constructed geometry)' if out.get('abstract_only') else ''), detail=detail)
     return out
